@@ -137,6 +137,73 @@ func (n *node) str() string {
 	return sb.String()
 }
 
+// strPrefixed serialises a top-level stanza with every foreign namespace
+// declared as a prefix on the stanza element, so that payload elements carry no
+// xmlns attribute at all (an element without attributes has an empty
+// start.Attr, which default-namespace declarations never produce).
+func (n *node) strPrefixed() string {
+	prefixes := map[string]string{}
+	var order []string
+	for _, x := range n.all() {
+		if x.NS != "" && x.NS != nsClient && strings.TrimSpace(x.NS) != "" && !strings.ContainsAny(x.Name, ":") {
+			if _, ok := prefixes[x.NS]; !ok {
+				prefixes[x.NS] = fmt.Sprintf("n%d", len(order))
+				order = append(order, x.NS)
+			}
+		}
+	}
+	var sb strings.Builder
+	n.writePrefixed(&sb, nsClient, prefixes, order, true)
+	return sb.String()
+}
+
+func (n *node) writePrefixed(sb *strings.Builder, parentNS string, prefixes map[string]string, order []string, root bool) {
+	ns := n.NS
+	if ns == "" {
+		ns = parentNS
+	}
+	name := n.Name
+	if p, ok := prefixes[ns]; ok && !strings.ContainsAny(n.Name, ":") {
+		name = p + ":" + n.Name
+	} else if ns != nsClient && !root {
+		// not expressible with the declared prefixes: fall back to a default declaration
+		n.write(sb, parentNS)
+		return
+	}
+	sb.WriteByte('<')
+	sb.WriteString(name)
+	if root {
+		for _, u := range order {
+			sb.WriteString(" xmlns:" + prefixes[u] + "='" + escAttr(u) + "'")
+		}
+	}
+	for _, a := range n.Attrs {
+		sb.WriteByte(' ')
+		sb.WriteString(a.K)
+		sb.WriteString("='")
+		sb.WriteString(escAttr(a.V))
+		sb.WriteByte('\'')
+	}
+	if len(n.Kids) == 0 {
+		sb.WriteString("/>")
+		return
+	}
+	sb.WriteByte('>')
+	for _, k := range n.Kids {
+		switch {
+		case k.El != nil:
+			k.El.writePrefixed(sb, ns, prefixes, order, false)
+		case k.Raw != "":
+			sb.WriteString(k.Raw)
+		default:
+			sb.WriteString(escText(k.Text))
+		}
+	}
+	sb.WriteString("</")
+	sb.WriteString(name)
+	sb.WriteByte('>')
+}
+
 // all returns every element of the tree in document order.
 func (n *node) all() []*node {
 	out := []*node{n}
@@ -247,8 +314,10 @@ func nastyFor(r *rand.Rand, name string) string {
 // ---------------------------------------------------------------------------
 // structural mutations
 
-var mutKinds = []string{"text-before-child", "ws-between", "drop-attr", "dup-attr", "empty-attr", "nasty-attr", "rename-attr", "ns", "rename",
-	"wrap", "hoist", "dup-child", "del-child", "del-children", "swap", "nasty-text", "raw", "graft", "type", "deep", "add-attr", "text-only"}
+// (the kinds the property names — text where an element is expected, missing
+// or broken attribute values — are drawn more often)
+var mutKinds = []string{"text-before-child", "text-before-child", "ws-between", "drop-attr", "drop-attr", "dup-attr", "empty-attr", "nasty-attr", "nasty-attr", "nasty-attr",
+	"rename-attr", "ns", "rename", "wrap", "hoist", "dup-child", "del-child", "del-children", "swap", "nasty-text", "nasty-text", "raw", "graft", "type", "deep", "add-attr", "text-only"}
 
 // mutate applies one structural mutation to the tree rooted at root and
 // returns its kind ("" when the chosen mutation did not apply).  graft is a
